@@ -206,6 +206,16 @@ check("C09", "a crash at any filesystem step loses nothing acknowledged and tear
       "DESIGN.md §3 C09",
       [R("^TestC09$", 64, 2400, timeout=(1200, 3300))], variant="vfs")
 
+check("C11", "concurrent requests never lose or tear updates", "exploration",
+      "rapid generator of small concurrent programs run on real goroutines (16 cores); oracle A = quiescent invariants over the recorded history, oracle B = porcupine linearizability check against the sequential tag/manifest/referrers model",
+      "Sampling of schedules: thousands of generated programs (2-5 clients x 1-5 operations on one repository: same-tag pushes, artifacts to the same subjects, deletes, listings, referrers reads, uploads, optional "
+      "background collections) are released together; every call is recorded with call/return times. Lost or torn updates show either at quiescence (acknowledged, never-deleted manifest or referrer missing; tag "
+      "resolving to a digest nobody pushed under it) or as a history that no sequential order consistent with real time explains (porcupine).",
+      "Trusted: porcupine v1.3.0; monotonic clock readings around each call; the Go scheduler decides the interleavings (the harness owns neither the scheduler nor the points inside a handler), so absence is not "
+      "established. A second 202 for a delete that raced past the same existence check is accepted; while finding C11/artifact-put-not-atomic is open an artifact push is modelled as two atomic steps.",
+      "DESIGN.md §3 C11",
+      [R("^TestC11$", 2400, 60000, shards=(8, 16))])
+
 NOT_APPLICABLE = {}
 
 # --------------------------------------------------------------------------- helpers
